@@ -71,10 +71,10 @@ def check_c08(ctx):
     known_here = [k for k in known if k["property"] == "C08"]
     base = 8000 if ctx.tier == "quick" else 400000
     results = []
-    flavours = [("tsanhook", 1.0, None, ()), ("tsanhook_o0", 0.3, None, ()), ("tsanhook_clang", 0.5, None, ()), ("tsanhook_w32_u0_nosimd", 0.3, None, ())]
+    flavours = [("cthook", 1.0, None, ()), ("cthook_o0", 0.3, None, ()), ("cthook_clang", 0.5, None, ()), ("cthook_w32_u0_nosimd", 0.3, None, ())]
     if ctx.tier == "thorough":
         # the compile-time paths the shipped build does not contain (32-bit words, byte-wise access, SIMD stubbed out) through the C12 hook
-        flavours += [(f, 0.3, None, ()) for f in ("tsanhook_w32", "tsanhook_neutral")]
+        flavours += [(f, 0.3, None, ()) for f in ("cthook_w32", "cthook_neutral")]
     for i, (fl, frac, bl, defs) in enumerate(flavours):
         d = props.build_flavour(ctx, fl, base=bl, defs=defs)
         r = props.run_objsim(ctx, fl, "C08", int(base * frac), i * base, [k["sig"] for k in known_here], build=False)
@@ -92,14 +92,14 @@ def check_c08(ctx):
         for k, v in r["probes"].items():
             pr[k] = pr.get(k, 0) + v
     extra = {"trace_events_compared": pr.get("ct.events", 0),
-             "components": {"real": "all of /repo/src with the repository's flags plus -fsanitize=thread -fsanitize-coverage=trace-pc (instrumentation only), gcc -O3, gcc -O0, clang -O3",
+             "components": {"real": "all of /repo/src with the repository's flags plus -fsanitize=kernel-address with out-of-line call-backs for every load and store (constant tables included) and -fsanitize-coverage=trace-pc for basic blocks (instrumentation only, our own call-backs): gcc -O3, gcc -O0, clang -O3, and the 32-bit-word/byte-access/no-SIMD paths through the SKINNY_VERIF hook",
                             "simulated": "allocator, CPUID, stack and buffer placement (all fixed so that two executions are comparable event for event)"}}
     rule = ("each seeded public plan (operation kinds, lengths, rounds, mode, back end via the CPU model, placements) is executed with 7 secret assignments (as generated, all-00, all-FF, two random, all-01, all-80) "
             "for every key, tweak, counter, data and tweak-array byte (seven since the bytes 01 and 80 were added); the sequence of basic blocks entered and of (address,size,read/write) accesses made by library code during the "
             "calls must be identical; distinct+non-trivial = distinct (kind, back end, op, state, size class) transitions traced")
     return props.finish(ctx, "exploration", rule, results, violations, findings, extra_cov=extra,
                         assumptions=["branches and addresses are observed at the compiler's instrumentation level of an instrumented build, not micro-architectural timing and not the exact shipped object code",
-                                     "32-byte AVX accesses are not instrumented by either compiler (their addresses are still fixed by the preceding scalar code)",
+                                     "memcpy/memset stay calls into libc (their lengths are public; their addresses come from instrumented pointer computations)",
                                      "secrets are sampled: 7 assignments per public plan"])
 
 
@@ -130,12 +130,12 @@ def replay(ctx, engine, fl, path):
 
 
 def prebuild(ctx):
-    props.build_flavour(ctx, "tsanhook_w32_u0_nosimd")
     for fl in ("tsanhook", "tsanhook_o0"):
-        props.build_flavour(ctx, fl, targets=("thrsim", "objsim"))
+        props.build_flavour(ctx, fl, targets=("thrsim",))
         print("built", fl)
-    props.build_flavour(ctx, "tsanhook_clang")
-    print("built tsanhook_clang")
+    for fl in ("cthook", "cthook_o0", "cthook_clang", "cthook_w32_u0_nosimd"):
+        props.build_flavour(ctx, fl)
+        print("built", fl)
     build_toolsim(ctx); print("built toolsim")
     build_ardsim(ctx); print("built ardsim")
     for c in QUICK_CFGS:
